@@ -203,6 +203,7 @@ def fresh_arguments(P, R, rule, callee_filter=None, floor=0):
     return n
 
 
+FLOAT64_DTYPES = {'np.float64', 'np.float_', 'np.double', 'float', 'numpy.float64', "'float64'", "'f8'", "'float'", "'d'"}
 FLOAT_DTYPES = {'np.float64', 'np.float32', 'np.float_', 'np.double', 'float', 'numpy.float64', 'numpy.float32', "'float64'", "'float32'", "'f8'", "'f4'", "'float'", "'d'"}
 
 
@@ -219,8 +220,13 @@ def nan_buffers(P, R, rule, modules, floor=1):
                     continue
                 n += 1
                 dt = next((k.value for k in c.keywords if k.arg == 'dtype'), c.args[2] if len(c.args) > 2 else None)
-                if dt is None or norm(dt) in FLOAT_DTYPES:
-                    R.ok(rule, f, c, 'NaN-initialised result buffer is floating point', construct=norm(c))
+                dte = astq.expand(f, dt) if dt is not None else None
+                if dt is None or norm(dt) in FLOAT64_DTYPES:
+                    R.ok(rule, f, c, 'NaN-initialised result buffer is float64', construct=norm(c))
+                elif norm(dt) in FLOAT_DTYPES or any(isinstance(x, ast.Call) and norm(x.func).split('.')[-1] in ('result_type', 'promote_types', 'find_common_type') for x in ast.walk(dte)) \
+                        or any(isinstance(x, ast.Attribute) and x.attr in ('dtype', 'numpy_dtype', 'subtype') for x in ast.walk(dte)):
+                    R.bad(rule, f, c, f'NaN-initialised result buffer has dtype `{norm(dte)}`: narrower than float64 (float32 for float32 / int16 / int8 coordinates) or not floating at all, '
+                          'so lengths, areas and bounds are rounded to single precision or NaN cannot be stored', construct=norm(c))
                 elif isinstance(dt, ast.Attribute) and dt.attr in ('dtype', 'numpy_dtype', 'subtype'):
                     R.bad(rule, f, c, f'NaN-initialised result buffer takes its dtype from `{norm(dt)}`: with integer coordinates NaN (empty / missing) cannot be represented and becomes INT_MIN or 0', construct=norm(c))
                 else:
